@@ -15,8 +15,15 @@ def main():
         if fn is None:
             continue
         try:
-            r = fn()
-            print('  %s.selftest(): %s' % (modname, 'ok' if r in (None, True, 0) or r else r))
+            import inspect
+            params = inspect.signature(fn).parameters
+            r = fn('/repo/example_data') if params and list(params.values())[0].default is inspect._empty else fn()
+            problems = r[0] if isinstance(r, tuple) else r
+            if isinstance(problems, list) and problems:
+                print('  %s.selftest(): PROBLEMS %s' % (modname, problems[:3]))
+                bad += 1
+                continue
+            print('  %s.selftest(): ok %s' % (modname, r[1:] if isinstance(r, tuple) else ''))
         except Exception:
             traceback.print_exc()
             print('  %s.selftest(): FAILED' % modname)
